@@ -62,6 +62,11 @@ pub fn all_ops(env: &Env, s: &str, other: &str, rec: &mut Rec, rng: &mut Rng) {
             for f in ALL_ARGFORMS {
                 flag(rec, &format!("{}::enforce({:?})", p.name(), f), &case, &api::fresh_call(p, true, s, f));
             }
+        } else {
+            flag(rec, &format!("{}::enforce(String)", p.name()), &case, &api::fresh_call(p, true, s, api::ArgForm::String));
+        }
+        for k in ALL_RULES {
+            flag(rec, &format!("{}::{:?}_rule(String)", p.name(), k), &case, &api::rule_owned(p, k, s));
         }
     }
     flag(rec, "profile::stabilize(nickname rules)", &case, &api::stabilize_with_rules(s));
@@ -114,7 +119,7 @@ pub fn run(env: &Env) -> Rec {
     for cp in b {
         all_cp_ops(cp, &mut rec);
     }
-    let n_rand = env.n(200_000, 1_000_000);
+    let n_rand = env.n(500_000, 5_000_000);
     let rr = par(n_rand / 10_000, |i, rec| {
         let mut rng = Rng::stream(env.seed, 0x01_0000 + i as u64);
         for _ in 0..10_000 {
@@ -123,7 +128,7 @@ pub fn run(env: &Env) -> Rec {
     });
     rec.merge(rr);
     // (b) exhaustive multi-byte strings
-    let max_len = if env.quick() { 4 } else { 5 };
+    let max_len = if env.quick() { 5 } else { 6 };
     let k = gen::ALPHA9.len();
     let total = util::n_strings(k, max_len);
     let per = 512usize;
@@ -143,7 +148,7 @@ pub fn run(env: &Env) -> Rec {
     rec.exhaustive(format!("all strings up to length {} over the 9-symbol 1-4 byte alphabet through every public string operation", max_len));
     // nickname-relevant deeper enumeration (space bookkeeping is where slicing happens)
     let alpha7: [char; 7] = [' ', '\u{A0}', '\u{3000}', 'a', '\u{E9}', '\u{20AC}', '\u{1F600}'];
-    let ml = if env.quick() { 6 } else { 8 };
+    let ml = if env.quick() { 7 } else { 9 };
     let total7 = util::n_strings(7, ml);
     let rb2 = par(total7.div_ceil(4096), |c, rec| {
         let mut idx = Vec::new();
@@ -163,7 +168,7 @@ pub fn run(env: &Env) -> Rec {
     rec.merge(rb2);
     rec.exhaustive(format!("all strings up to length {} over {{SP,A0,3000,a,E9,20AC,1F600}} through the enforce operations and the nickname space rule", ml));
     // random hostile strings
-    let n = env.n(60_000, 2_000_000);
+    let n = env.n(300_000, 6_000_000);
     let per = 500usize;
     let rc = par(n.div_ceil(per), |c, rec| {
         let mut rng = Rng::stream(env.seed, 0x01_8000 + c as u64);
@@ -185,8 +190,67 @@ pub fn run(env: &Env) -> Rec {
         }
     });
     rec.merge(rc);
+    // long inputs with the interesting characters at and around power-of-two byte offsets (chunked fast
+    // paths, offsets kept in narrow integers), same-length variants in one reused buffer
+    let n_hostile = env.n(6_000, 300_000);
+    let per = 100usize;
+    let rh = par(n_hostile.div_ceil(per), |c, rec| {
+        let mut rng = Rng::stream(env.seed, 0x01_C000 + c as u64);
+        let mut rng2 = Rng::stream(env.seed, 0x01_D000 + c as u64);
+        let p = env.pools();
+        super::hostile::drive(
+            &mut rng,
+            per,
+            65536,
+            |rng| match rng.below(6) {
+                0 => gen::contextual_label(p, rng),
+                1 => {
+                    let mut t = String::new();
+                    for _ in 0..rng.range(1, 3) {
+                        t.push(if rng.chance(1, 2) { ' ' } else { *rng.pick(&p.zs) });
+                    }
+                    t
+                }
+                2 => "\u{65E5}\u{672C}\u{8A9E} ".to_string(),
+                3 => gen::SPECIAL_WORDS[rng.below(gen::SPECIAL_WORDS.len())].to_string(),
+                4 => gen::random_string(p, rng, gen::MIX_HOSTILE, 4),
+                _ => gen::random_string(p, rng, gen::MIX_FREEFORM, 5),
+            },
+            |s| all_ops(env, s, "x", rec, &mut rng2),
+        );
+    });
+    rec.merge(rh);
+    // block-structured strings through the space-sensitive operations
+    {
+        let ml = if env.quick() { 5 } else { 6 };
+        let k = super::hostile::SPACE_MACROS.len();
+        let total = util::n_strings(k, ml);
+        let per = 2048usize;
+        let rm = par(total.div_ceil(per), |c, rec| {
+            let mut idx = Vec::new();
+            let mut s = String::new();
+            for n in c * per..((c + 1) * per).min(total) {
+                util::nth_seq(k, n, &mut idx);
+                s.clear();
+                for i in &idx {
+                    s.push_str(super::hostile::SPACE_MACROS[*i]);
+                }
+                let case = || format!("label={}", util::esc(&s));
+                flag(rec, "Nickname::enforce", &case, &api::enforce(Prof::Nick, &s));
+                flag(rec, "Nickname::compare(s,s)", &case, &api::compare(Prof::Nick, &s, &s));
+                flag(rec, "Nickname::Additional_rule(String)", &case, &api::rule_owned(Prof::Nick, api::RuleK::Additional, &s));
+                flag(rec, "OpaqueString::enforce(String)", &case, &api::fresh_call(Prof::Opaque, true, &s, api::ArgForm::String));
+                flag(rec, "UsernameCaseMapped::enforce", &case, &api::enforce(Prof::Ucm, &s));
+                if s.len() > 16 {
+                    rec.nontrivial("multibyte-input:block-structured", &s, || util::esc(&s));
+                }
+            }
+        });
+        rec.merge(rm);
+        rec.exhaustive(format!("all sequences of up to {} block-level symbols through the Nickname / OpaqueString / username enforce paths", ml));
+    }
     // a few very long strings
-    let n_long = env.n(6, 40);
+    let n_long = env.n(12, 80);
     let rl = par(n_long, |c, rec| {
         let mut rng = Rng::stream(env.seed, 0x01_F000 + c as u64);
         let p = env.pools();
